@@ -507,3 +507,20 @@ def extra_stage(rep, ctx):
                                    explanation="the real code's result differs from the independent reference of the mathematical definition beyond the tolerance"))
     return dict(evaluations=n, distinct=distinct, samples=[dict(oracle_case=cases[0][:2], impl=io.get(0, [])[:2])] if cases else [],
                 found_input=reported > 0)
+
+
+MANIFEST = dict(
+    text=("48 Lean 4 theorems about definitions REGENERATED on every run from the clang AST of LinearSpace.h / AffineSpace.h / "
+          "Quaternion.h (82 wrappers, 200+ translated functions): M*inverse(M) = inverse(M)*M = 1 and rcp(A)*A = A*rcp(A) = 1 "
+          "(det != 0), (A*B)p = A(Bp) for linear and affine maps, det multiplicative, adjoint/transposed/rows by components, "
+          "xfmPoint/xfmVector/xfmNormal = full map / linear part / inverse transpose, rotate(axis,angle) orthogonal with det 1, "
+          "fixing the axis, trace 1+2cos (given s^2+c^2=1 and a square-root law), 2D rotation proper, the matrix of a quaternion "
+          "acts as q v conj(q), Hamilton product associative / norm-multiplicative / composing rotations, yaw-pitch-roll = "
+          "qY*qX*qZ, scale/translate/rotate-about-a-point fix the documented axes and point, lookat has det -1 and frame det +1 "
+          "with orthonormal axes — over any ordered field with abstract sin/cos/sqrt. The regenerated definitions are also executed "
+          "at Float32 (libm sinf/cosf/acosf/sqrtf) and compared bit for bit with the real functions; an independent double-precision "
+          "reference (Rodrigues, cofactor inverse, standard slerp) checks every wrapper within a conditioned tolerance."),
+    note=("Trusted: Lean kernel + propext/Classical.choice/Quot.sound; clang-14 AST + tools/cpp2lean.py (validated each run by the "
+          "bit-exact correspondence); exact-field arithmetic instead of IEEE rounding ('within tolerance' is observed, not proved); "
+          "the four matrix->quaternion branches, slerp and orthogonal() are covered by translation + reference oracle only (no theorem yet)."),
+    technique="Lean 4 proof (ring/linear_combination identities) over a model regenerated from the C++ AST + bit-exact differential check + reference oracle")
